@@ -74,6 +74,28 @@ func archOfGOARCH(g string) string {
 func drawProbePolicy(t *rapid.T, archName string, actions []uint32, defaults []uint32) spec.Policy {
 	p := gen.Policy(t, archName, gen.Opts{Profile: gen.Probes, Names: probeNames, Actions: actions, MaxGroups: 4, MaxInsns: 600})
 	p.Default = defaults[rapid.IntRange(0, len(defaults)-1).Draw(t, "probeDefault")]
+	if rapid.IntRange(0, 3).Draw(t, "longConditional") == 0 {
+		// one probe with so many condition lists that its checks alone exceed 255 instructions
+		// (unconditional bridges), followed by rules for other probes that are reached across them
+		name := probeNames[rapid.IntRange(0, len(probeNames)-1).Draw(t, "longName")]
+		g := spec.Group{Action: actions[rapid.IntRange(0, len(actions)-1).Draw(t, "longAction")]}
+		nl := rapid.IntRange(11, 30).Draw(t, "longLists")
+		for l := 0; l < nl; l++ {
+			ce := spec.CondEntry{Name: name}
+			nc := rapid.IntRange(4, 6).Draw(t, "longConds")
+			for k := 0; k < nc; k++ {
+				ce.Conds = append(ce.Conds, spec.Cond{Arg: uint32(k), Op: spec.Ops[rapid.IntRange(0, 7).Draw(t, "longOp")], Val: uint64(l*7+k) | uint64(rapid.IntRange(0, 3).Draw(t, "longHi"))<<32})
+			}
+			g.Conds = append(g.Conds, ce)
+		}
+		for _, other := range probeNames {
+			if other != name && rapid.Bool().Draw(t, "longOther") {
+				g.Conds = append(g.Conds, spec.CondEntry{Name: other, Conds: []spec.Cond{{Arg: 0, Op: "Equal", Val: 0xdeadbeef00000005}}})
+			}
+		}
+		pos := rapid.IntRange(0, len(p.Groups)).Draw(t, "longPos")
+		p.Groups = append(p.Groups[:pos:pos], append([]spec.Group{g}, p.Groups[pos:]...)...)
+	}
 	needRest := p.Default != actAllow && p.Default != actLog
 	if needRest || rapid.IntRange(0, 3).Draw(t, "longProgram") == 0 {
 		pos := rapid.IntRange(0, len(p.Groups)).Draw(t, "restPos")
@@ -248,7 +270,17 @@ func checkC08(raw json.RawMessage) (ev.Result, error) {
 	}
 	loads := rr.Find(2, "load")
 	if len(loads) != 1 {
-		return ev.Result{}, ev.Inconclusivef("no load event (stderr %q)", clip(rr.Stderr, 300))
+		if rr.Signaled && rr.Signal == syscall.SIGSYS && len(rr.Find(2, "begin:load")) == 1 {
+			// the policy restricts nothing but the six probe syscalls; the loader itself issues none of them
+			return ev.Result{}, fmt.Errorf("the child was killed by SIGSYS inside LoadFilter / before it could report: the installed filter (%d instructions) denies a system call that the policy allows", len(cp.raw))
+		}
+		if !rr.TimedOut && len(rr.Find(2, "begin:load")) == 1 {
+			// The child announced the load and then fell silent or crashed without being killed by a probe:
+			// its own system calls (write, futex, gettid ...) are denied, although the policy restricts
+			// nothing but the six probe syscalls.
+			return ev.Result{}, fmt.Errorf("after the load began the child stopped reporting (exit %d, signal %v): the installed filter (%d instructions) denies system calls that the policy allows", rr.Exit, rr.Signal, len(cp.raw))
+		}
+		return ev.Result{}, ev.Inconclusivef("no load event (exit %d, stderr %q)", rr.Exit, clip(rr.Stderr, 300))
 	}
 	ld := loads[0]
 	res := ev.Result{Classes: []string{"abi:" + c.GOARCH, fmt.Sprintf("flag:%d", c.Flag), fmt.Sprintf("nnp:%v", c.NNP)}}
